@@ -123,6 +123,12 @@ def dialect_of(prog):
     return prog.get("render_opts", {}).get("dialect") or "axllib"
 
 
+def prog_args(prog):
+    """Compiler arguments that belong to the program: its library dialect, and options the program declares itself
+    (e.g. -Mno-warnings for programs that redefine a macro locally: the compiler remarks on the hiding)."""
+    return DIALECT_ARGS[dialect_of(prog)] + list(prog.get("aldor_args", []))
+
+
 def _res(rc, out, err, phase, to, d, **kw):
     r = {"rc": rc, "out": out.decode(errors="replace") if isinstance(out, bytes) else out,
          "err": err.decode(errors="replace") if isinstance(err, bytes) else err, "phase": phase, "timeout": to, "dir": d}
@@ -151,7 +157,7 @@ def java_emit(build, prog, workdir, qlevel=None, extra_args=(), timeout=60, env=
     with open(os.path.join(d, unit + ".as"), "w") as fh:
         fh.write(prog.get("source_text") or render.render(prog))
     q = ["-Q%s" % qlevel] if qlevel is not None else []
-    rc, out, err, to = _aldor(build, DIALECT_ARGS[dialect_of(prog)] + q + list(extra_args) + ["-Jmain", "-Fjava", unit + ".as"],
+    rc, out, err, to = _aldor(build, prog_args(prog) + q + list(extra_args) + ["-Jmain", "-Fjava", unit + ".as"],
                               d, timeout, env, cpu_limit)
     job = {"dir": d, "unit": unit, "java": os.path.join(d, "aldorcode", unit + ".java"), "res": None, "classes": None}
     if rc != 0 or to or not os.path.exists(job["java"]):
@@ -210,7 +216,7 @@ def run_program(build, prog, route, workdir, qlevel=None, extra_args=(), timeout
     src = os.path.join(d, "p.as")
     with open(src, "w") as fh:
         fh.write(prog.get("source_text") or render.render(prog))
-    q = DIALECT_ARGS[dialect_of(prog)] + (["-Q%s" % qlevel] if qlevel is not None else [])
+    q = prog_args(prog) + (["-Q%s" % qlevel] if qlevel is not None else [])
     if route == "interp":
         rc, out, err, to = _aldor(build, q + list(extra_args) + ["-Ginterp", "p.as"], d, timeout, env, cpu_limit)
         return {"rc": rc, "out": out.decode(errors="replace"), "err": err.decode(errors="replace"), "phase": "interp", "timeout": to, "dir": d}
@@ -333,7 +339,7 @@ def run_c_all(build, prog, workdir, extra_args=(), names=None, tag="", axllib=No
     os.makedirs(d, exist_ok=True)
     with open(os.path.join(d, "p.as"), "w") as fh:
         fh.write(render.render(prog, names))
-    q = DIALECT_ARGS[dialect_of(prog)] + (["-Q%s" % qlevel] if qlevel is not None else [])
+    q = prog_args(prog) + (["-Q%s" % qlevel] if qlevel is not None else [])
     rc, out, err, to = vlib.aldor(build, q + list(extra_args) + ["-Fc", "-Fmain", "p.as"], d, timeout=timeout, env=env)
     cfiles = sorted(os.path.basename(f) for f in glob.glob(os.path.join(d, "*.c")))
     hfiles = sorted(os.path.basename(f) for f in glob.glob(os.path.join(d, "*.h")))
